@@ -15,6 +15,7 @@ reference, not from the implementation):
 
 from fractions import Fraction
 import itertools
+import math
 
 REJECT = "REJECT"
 
@@ -156,7 +157,8 @@ class Model:
                     w[nid] = v
                     rec(i + 1, p * Fraction(wt) / tot, w)
             elif k == "range":
-                lo, hi = V(e[1]), V(e[2])
+                # the integers between the (possibly non-integral) bounds
+                lo, hi = math.ceil(V(e[1])), math.floor(V(e[2]))
                 if hi < lo:
                     out.append((p, None))
                 else:
@@ -201,6 +203,10 @@ class Model:
                         v = a // b
                     elif op == "%":
                         v = a % b
+                    elif op == "/":
+                        v = a / b
+                    elif op == "**":
+                        v = a**b
                     else:
                         raise ValueError(op)
                 elif k == "un":
